@@ -5,19 +5,145 @@ package main
 
 import (
 	"strings"
+	"time"
 
 	"verif/harness/hlib"
 	"verif/harness/ringh"
 )
 
+// survivorJoin forces, on real nodes and with two real goroutines, the one interleaving in which a join request
+// and the contacted node's own stabilize round hold LocalNode's mutexes at the same time: the sole survivor b of
+// the ring {a,b} (a crashed, nothing detected yet: b still lists [a,b] with predecessor a) is asked to admit j,
+// a < j < b, while its stabilize round — which has already read b's pointers and is waiting for the dead a — finds
+// out that b is alone and stores the collapsed successor list [b] INSIDE the request's key transfer:
+//
+//	stabilize(b): GetPredecessor@a x, GetSuccessors@a x, GetPredecessor@b, GetSuccessors@b, GetSuccessors@a … parked
+//	RequestToJoin(j) at b: membership lock, predecessor lock, key in (a,j] → Import@j … parked
+//	stabilize resumes (call fails, list [b] stored, Notify to itself waits for the request), 100 ms,
+//	the request resumes (Import, hand-off answer built from the successor list).
+//
+// Emits `reqjoinstab <b> <j> => <answer of the join request>`; judged by the oracle only (see Drv.lean). The
+// session is not used afterwards.
+func survivorJoin(run *hlib.Run, s *ringh.Session, b, j uint64) string {
+	lhs := "reqjoinstab " + ringh.U(b) + " " + ringh.U(j)
+	run.Begin(lhs)
+	r := s.R
+	ownList := "GetSuccessors@" + ringh.U(b)
+	r.LogRPC = true
+	// 1. stabilize of b up to the call that follows the read of its own successor list
+	at1, resume1 := r.PauseNext(func(m string) bool {
+		c := r.Calls // evaluated inside the ring's call gate, under its lock
+		return m == "GetSuccessors" && len(c) > 0 && c[len(c)-1] == ownList
+	})
+	stabDone := make(chan string, 1)
+	go func() { stabDone <- r.Exec([]string{"stabilize", ringh.U(b)}) }()
+	parked1 := false
+	select {
+	case <-at1:
+		parked1 = true
+	case res := <-stabDone: // the round ended without that call (changed code): the request is still made and judged
+		stabDone <- res
+	case <-time.After(2 * time.Second):
+	}
+	// 2. the join request up to the delivery of the keys to the joiner
+	at2, resume2 := r.PauseNext(func(m string) bool { return m == "Import" })
+	joinDone := make(chan string, 1)
+	go func() { joinDone <- r.Exec([]string{"reqjoin", ringh.U(b), ringh.U(j)}) }()
+	parked2 := false
+	res := ""
+	select {
+	case <-at2:
+		parked2 = true
+	case res = <-joinDone:
+	case <-time.After(2 * time.Second):
+	}
+	// 3. stabilize stores its list while the request holds its locks; then the request goes on
+	resume1()
+	if parked1 && parked2 {
+		time.Sleep(100 * time.Millisecond)
+	}
+	resume2()
+	if res == "" {
+		res = <-joinDone // "timeout" after ringh's op timeout when the request is never answered
+	}
+	if res != "timeout" {
+		select {
+		case <-stabDone:
+		case <-time.After(5 * time.Second):
+		}
+	}
+	run.Count(hlib.F("survivor:stabilize-parked=%v,join-parked=%v", parked1, parked2))
+	if strings.HasPrefix(res, "err:") || res == "timeout" {
+		run.Count("result:" + res)
+	}
+	run.Count("op:reqjoinstab")
+	run.Emit(lhs, res)
+	s.Dead = true
+	return res
+}
+
+// survivorCases: rings {a,b} around the hash h of a stored key, a < h <= j < b, a crashed.
+func survivorCases(run *hlib.Run, n int) {
+	rng := hlib.NewRng(run.Seed ^ 0x5a17e5c08)
+	dist := func() uint64 {
+		switch rng.Intn(3) {
+		case 0:
+			return 1
+		case 1:
+			return 1 + uint64(rng.Intn(1000))
+		}
+		return 1 + rng.U64()%(ringh.M/8)
+	}
+	for c := 0; c < n; c++ {
+		k := hlib.Pick(rng, ringh.KeyTokens)
+		h := ringh.HashOf(k)
+		a := (h + ringh.M - dist()) % ringh.M
+		j := (h + dist() - 1) % ringh.M
+		b := (j + dist()) % ringh.M
+		s := ringh.NewSession(run, rng)
+		ids := []uint64{a, b}
+		if rng.Bool() {
+			ids = []uint64{b, a}
+		}
+		members := s.BuildRing(ids)
+		if len(members) != 2 {
+			continue
+		}
+		s.Repair(members, 6)
+		s.Do("put", ringh.U(b), k, ringh.U(h), hlib.Pick(rng, ringh.ValTokens))
+		s.Do("crash", ringh.U(a))
+		s.Do("new", ringh.U(j))
+		s.Do("setstate", ringh.U(j), "Joining") // a joiner that is inside Join(): it accepts the transferred keys
+		if s.Dead {
+			continue
+		}
+		res := survivorJoin(run, s, b, j)
+		run.Case(hlib.F("survivor|%d|%d|%d|%s", a, b, j, k))
+		if res == "timeout" {
+			break // the ring is wedged; one failing input is enough
+		}
+	}
+}
+
 func main() {
 	hlib.Guarded(func(run *hlib.Run) {
-		run.Rule = "RequestToJoin(joiner) sent to a random live node of rings of 1..6 real LocalNodes in states: stable; predecessor crashed + checkPredecessor (pred nil) + neighbour's stabilize with lost Notify; busy node; joiner id random / adjacent (±1) / equal to a member; joiner Inactive or Joining; non-trivial = distinct (ring state, target, joiner id) where the handling node has pred nil, pred self or is busy"
+		run.Rule = "RequestToJoin(joiner) sent to a random live node of rings of 1..6 real LocalNodes in states: stable; predecessor crashed + checkPredecessor (pred nil) + neighbour's stabilize with lost Notify; busy node; joiner id random / adjacent (±1) / equal to a member; joiner Inactive or Joining; non-trivial = distinct (ring state, target, joiner id) where the handling node has pred nil, pred self or is busy; plus forced two-goroutine interleavings on the sole survivor of a two-node ring: its stabilize stores the collapsed successor list inside the key transfer of a join request (reqjoinstab, oracle only)"
 		rng := hlib.NewRng(run.Seed)
 		if run.Replay != "" {
 			s := ringh.NewSession(run, rng)
 			for _, t := range run.ReplayLines() {
 				if t[0] == "reset" {
+					continue
+				}
+				if t[0] == "reqjoinstab" && len(t) == 3 {
+					var b, j uint64
+					for _, c := range t[1] {
+						b = b*10 + uint64(c-'0')
+					}
+					for _, c := range t[2] {
+						j = j*10 + uint64(c-'0')
+					}
+					survivorJoin(run, s, b, j)
 					continue
 				}
 				run.Begin(strings.Join(t, " "))
@@ -26,8 +152,10 @@ func main() {
 			return
 		}
 		cases := 25
+		survivors := 4
 		if run.Thorough() {
 			cases = 200
+			survivors = 24
 		}
 		for c := 0; c < cases; c++ {
 			n := 1 + rng.Intn(6)
@@ -131,6 +259,11 @@ func main() {
 					if rng.Chance(60) {
 						// a joiner in the dead node's range, i.e. one the racing node is responsible for
 						j = (victimID + 1 + uint64(rng.Intn(3))) % ringh.M
+						if rng.Chance(60) {
+							// asked directly at the racing node: the request is not routed through the dead node
+							// (whose failure nobody has detected yet), so it does reach the hand-off
+							target = raceX
+						}
 						if j != victimID {
 							known := false
 							for _, m := range ids {
@@ -163,5 +296,6 @@ func main() {
 				}
 			}
 		}
+		survivorCases(run, survivors)
 	})
 }
